@@ -36,8 +36,24 @@ impl Rng {
     }
 }
 
+static LAST_PANIC_AT: std::sync::Mutex<String> = std::sync::Mutex::new(String::new());
+
+/// no panic chatter on stderr; the source location of the last panic is kept for `last_panic_at`
 pub fn silence_panics() {
-    std::panic::set_hook(Box::new(|_| {}));
+    std::panic::set_hook(Box::new(|info| {
+        if let (Some(l), Ok(mut g)) = (info.location(), LAST_PANIC_AT.lock()) {
+            *g = format!("{}:{}", l.file(), l.line());
+        }
+    }));
+}
+
+pub fn last_panic_at() -> String {
+    LAST_PANIC_AT.lock().map(|g| g.clone()).unwrap_or_default()
+}
+
+/// true when the location is inside libhaystack (or one of its dependencies), not inside this harness
+pub fn panic_in_library(at: &str) -> bool {
+    !at.is_empty() && !at.starts_with("src/") && !at.contains("/verif/harness/")
 }
 
 /// Runs f; a panic becomes Err(message).
